@@ -161,13 +161,28 @@ def attrsToFields : List (String × Bool × CedarType) → Fields
   | (k, _, t) :: rest => (k, typeToAccessTrie t) :: attrsToFields rest
 end
 
+/-- the loop of `full_type_required` on a record literal: over the *type's* attributes; the literal's field is looked up
+by name (`literal_fields.remove(attr).unwrap_or_else(panic)`) and analysed at the attribute's type.  `fns` holds, per
+literal field, its `full_type_required` as a function of the type. -/
+def fullTypeRecord (fns : List (String × (CedarType → M RootAccessTrie))) : List (String × Bool × CedarType) → M RootAccessTrie
+  | [] => .ok []
+  | (attr, _, aty) :: rest =>
+    match fns.find? (fun kf => kf.1 == attr) with
+    | none => .error (.panic "Missing field in record literal")
+    | some kf =>
+      match kf.2 aty with
+      | .error e => .error e
+      | .ok r => match fullTypeRecord fns rest with
+        | .error e => .error e
+        | .ok rs => .ok (unionRoots r rs)
+
 -- `WrappedAccessPaths::full_type_required`
 mutual
 def WPaths.fullTypeRequired : WPaths → CedarType → M RootAccessTrie
   | .path root fields, ty => .ok (toRootTrieWithLeaf root fields (typeToAccessTrie ty))
   | .record kvs, ty =>
     match ty with
-    | .record attrs _ => fullTypeRecord kvs attrs
+    | .record attrs _ => fullTypeRecord (fullTypeFns kvs) attrs
     | _ => .error (.panic "Found record literal when expected another type")
   | .set elems, ty =>
     match ty with
@@ -181,19 +196,9 @@ def WPaths.fullTypeRequired : WPaths → CedarType → M RootAccessTrie
     | .ok ra => match WPaths.fullTypeRequired b ty with
       | .error e => .error e
       | .ok rb => .ok (unionRoots ra rb)
-/-- the loop over the *type's* attributes; the literal's field is looked up by name -/
-def fullTypeRecord (kvs : List (String × WPaths)) : List (String × Bool × CedarType) → M RootAccessTrie
-  | [] => .ok []
-  | (attr, _, aty) :: rest =>
-    match lookupWIn kvs attr aty with
-    | .error e => .error e
-    | .ok r => match fullTypeRecord kvs rest with
-      | .error e => .error e
-      | .ok rs => .ok (unionRoots r rs)
-/-- `literal_fields.remove(attr).unwrap_or_else(panic).full_type_required(attr_ty)` (structural on the literal) -/
-def lookupWIn : List (String × WPaths) → String → CedarType → M RootAccessTrie
-  | [], _, _ => .error (.panic "Missing field in record literal")
-  | (k, v) :: rest, attr, aty => if k == attr then WPaths.fullTypeRequired v aty else lookupWIn rest attr aty
+def fullTypeFns : List (String × WPaths) → List (String × (CedarType → M RootAccessTrie))
+  | [] => []
+  | (k, v) :: rest => (k, WPaths.fullTypeRequired v) :: fullTypeFns rest
 end
 
 -- `RootAccessTrie::add_wrapped_access_paths`
